@@ -24,6 +24,9 @@ def run(ctx, rep):
     rep.rule("R16-TABLES", "the two counterexample decision tables of run_once (first keep / replay cache) agree for every OnTestFailure mode", floor=6)
     rep.rule("R16-WRITER", "Counterexample.value and .choices are assigned only in consider, together, under Status::Keep, from the replayed choices", floor=3)
     rep.rule("R16-SEED", "every runnable is run with the seed of the run, unchanged", floor=1)
+    rep.rule("R16-VERDICT", "TestResult::is_success, read as a decision table over (counterexample: Err | Ok(None) | Ok(Some)) x (OnTestFailure mode), equals the specification: an errored run never passes; fail-once passes only with a counterexample", floor=9)
+    rep.guarded("R16-VERDICT", lambda: r_verdict(sh, rep))
+    rep.guarded("R16-SEED", lambda: r_seed_cli(sh, rep))
     rep.rule("R16-PURE", "no clock / RNG / environment / thread-identity call in the test framework besides the reviewed display-only site", floor=1)
     rep.rule("R16-GUARD", "every `v.len() - k` inside Counterexample::simplify is under a non-emptiness / length test of the same vector", floor=3)
     rep.guarded("R16-TABLES", lambda: r_tables(sh, rep))
@@ -175,6 +178,26 @@ def r_seed(sh, rep):
     for c in runs:
         a0 = sh.nsrc(PL, c["args"][0])
         rep.check(a0 == "seed", "R16-SEED", "run_runnables#run(seed)", sh.loc(PL, c), "tests are run with `%s` instead of the run's seed: the outcome of a property then depends on something other than (seed, code) — e.g. its position among the collected tests — so re-running it alone with the printed seed does not reproduce the result" % a0, sample={"seed_arg": a0})
+
+
+def r_seed_cli(sh, rep):
+    """`aiken check --seed N` must run with N, for every N: the seed the user gave reaches run_runnables unchanged; only its
+    absence is replaced by a random one."""
+    CK = "crates/aiken/src/cmd/check.rs"
+    f = find_fn(sh.file(CK), "exec")
+    rep.touched(CK, "cmd::check::exec")
+    inits = [st for st in walk(f["body"]) if st.get("k") == "Local" and st["pat"].get("k") == "Ident" and st["pat"]["name"] == "seed" and st.get("init") is not None]
+    if not inits:
+        raise AnchorMissing("`let seed = ..` in cmd::check::exec")
+    e = inits[0]["init"]
+    chain = []
+    while e.get("k") == "MethodCall":
+        chain.append(e["m"])
+        e = e["recv"]
+    chain.reverse()
+    base = sh.nsrc(CK, e)
+    ok = base == "seed" and len(chain) == 1 and chain[0] in ("unwrap_or_else", "unwrap_or")
+    rep.check(ok, "R16-SEED", "check::exec#user-seed-unchanged", sh.loc(CK, inits[0]), "the seed option given on the command line goes through `%s` before its default is supplied: some seeds the user asks for (0, say) are replaced — by a random one, so the run is not reproducible and the report names a seed nobody chose" % ".".join(chain), sample={"chain": chain})
 
 
 EFFECTS = re.compile(r"std::time::(Instant|SystemTime)::now|^rand::|^rand_|getrandom|std::env::(var|vars|args)|std::thread::current|RandomState::new|std::process::id")
@@ -382,3 +405,129 @@ def r_sameeval(sh, rep):
     ev = find_method(fj, "PropertyTest", "eval")
     inner = [n for n in walk(ev["body"]) if n.get("k") == "MethodCall" and n["m"] in ("eval_version", "eval")]
     rep.check(len(inner) == 1 and "ExBudget::max()" in sh.nsrc(TF, inner[0]), "R16-SAMEEVAL", "PropertyTest::eval#max-budget", sh.loc(TF, ev), "PropertyTest::eval must evaluate once, under ExBudget::max()")
+
+
+# ---------------------------------------------------------------------------------------------------------
+# R16-VERDICT: is_success as a finite decision table
+# ---------------------------------------------------------------------------------------------------------
+class _Unknown(Exception):
+    pass
+
+
+def _pmatch(pat, val):
+    """does constructor-tree value `val` (a tuple (ctor, child) / string / None=any) match the pattern? -> bindings or None"""
+    k = pat.get("k")
+    if k in ("Wild", "Rest"):
+        return {}
+    if k == "Ident":
+        if pat.get("sub") is not None:
+            raise _Unknown("@ pattern")
+        if pat["name"][:1].isupper():  # a unit constructor (`None`) parses as an identifier pattern
+            return {} if pat["name"] == (val[0] if isinstance(val, tuple) else val) else None
+        return {pat["name"]: val}
+    if k == "POr":
+        for c in pat["cases"]:
+            b = _pmatch(c, val)
+            if b is not None:
+                return b
+        return None
+    if k == "PPath":
+        return {} if last(pat["p"]) == (val[0] if isinstance(val, tuple) else val) else None
+    if k == "PTupleStruct":
+        if not isinstance(val, tuple) or last(pat["p"]) != val[0]:
+            return None
+        elems = [e for e in pat["elems"]]
+        if not elems or elems[0].get("k") == "Rest":
+            return {}
+        return _pmatch(elems[0], val[1])
+    if k == "PRef" or k == "PParen":
+        return _pmatch(pat.get("pat") or pat.get("e"), val)
+    raise _Unknown("pattern " + str(k))
+
+
+def _ev(e, env):
+    k = e.get("k")
+    if k == "Lit" and e.get("lk") == "bool":
+        return e["v"] in (True, "true")
+    if k == "Paren":
+        return _ev(e["e"], env)
+    if k == "Path":
+        if e["p"] in env:
+            return env[e["p"]]
+        raise _Unknown("name " + e["p"])
+    if k == "Field" and e["e"].get("k") == "Path" and (e["e"]["p"] + "." + e["f"]) in env:
+        return env[e["e"]["p"] + "." + e["f"]]
+    if k == "Unary" and e["op"] == "!":
+        return not _ev(e["e"], env)
+    if k == "Unary" and e["op"] == "*":
+        return _ev(e["e"], env)
+    if k == "Reference":
+        return _ev(e["e"], env)
+    if k == "Binary" and e["op"] in ("&&", "||"):
+        l = _ev(e["l"], env)
+        return (l and _ev(e["r"], env)) if e["op"] == "&&" else (l or _ev(e["r"], env))
+    if k == "MethodCall" and not e["args"] and e["m"] in ("is_none", "is_some", "is_ok", "is_err"):
+        v = _ev(e["recv"], env)
+        c = v[0] if isinstance(v, tuple) else v
+        return {"is_none": c == "None", "is_some": c == "Some", "is_ok": c == "Ok", "is_err": c == "Err"}[e["m"]]
+    if k == "Macro" and last(e.get("path", "")) == "matches" and "pat" in e:
+        b = _pmatch(e["pat"], _ev(e["e"], env))
+        if b is None:
+            return False
+        return _ev(e["guard"], dict(env, **b)) if "guard" in e else True
+    if k == "Block":
+        env = dict(env)
+        for st in e["stmts"]:
+            if st["k"] == "Local" and st["pat"].get("k") == "Ident" and st.get("init") is not None:
+                env[st["pat"]["name"]] = _ev(st["init"], env)
+            elif st["k"] == "ExprStmt" and not st.get("semi"):
+                return _ev(st["e"], env)
+            else:
+                raise _Unknown("statement " + st["k"])
+        raise _Unknown("block without value")
+    if k == "Match":
+        v = _ev(e["e"], env)
+        for a in e["arms"]:
+            b = _pmatch(a["pat"], v)
+            if b is not None and ("guard" not in a or _ev(a["guard"], dict(env, **b))):
+                return _ev(a["body"], dict(env, **b))
+        raise _Unknown("no arm matches")
+    if k == "If" and e.get("else") is not None:
+        return _ev(e["then"], env) if _ev(e["cond"], env) else _ev(e["else"], env)
+    raise _Unknown("expression " + str(k))
+
+
+def r_verdict(sh, rep):
+    f = find_method(sh.file(TF), "TestResult", "is_success")
+    rep.touched(TF, "TestResult::is_success")
+    m = next(matches_in(f["body"]), None)
+    if m is None:
+        raise AnchorMissing("match in TestResult::is_success")
+    CES = {"Err": ("Err", None), "Ok(None)": ("Ok", ("None", None)), "Ok(Some)": ("Ok", ("Some", None))}
+    MODES = ("FailImmediately", "SucceedEventually", "SucceedImmediately")
+    SPEC = {("Err", md): False for md in MODES}
+    SPEC.update({("Ok(None)", "FailImmediately"): True, ("Ok(None)", "SucceedEventually"): True, ("Ok(None)", "SucceedImmediately"): False, ("Ok(Some)", "FailImmediately"): False, ("Ok(Some)", "SucceedEventually"): False, ("Ok(Some)", "SucceedImmediately"): True})
+    for (cn, md), want in sorted(SPEC.items()):
+        got, why = None, ""
+        try:
+            for a in m["arms"]:
+                # the arm's pattern: TestResult::PropertyTestResult(PropertyTestResult { counterexample: P, test, .. })
+                inner = [x for x in walk(a["pat"]) if x.get("k") == "PStruct" and last(x["p"]) == "PropertyTestResult"]
+                if not inner:
+                    continue
+                env = {"test.on_test_failure": (md, None)}
+                ok = True
+                for fld in inner[0]["fields"]:
+                    if fld["name"] == "counterexample":
+                        b = {"counterexample": CES[cn]} if fld.get("short") else _pmatch(fld["pat"], CES[cn])
+                        if b is None:
+                            ok = False
+                            break
+                        env.update(b)
+                if not ok:
+                    continue
+                got = _ev(a["body"], env)
+                break
+        except _Unknown as e:
+            why = "not evaluable: %s" % e
+        rep.check(got is want, "R16-VERDICT", "is_success#%s#%s" % (cn, md), sh.loc(TF, f), "for a property test in mode %s whose run ended with counterexample = %s, is_success gives %s (%s); it must give %s — %s" % (md, cn, got, why or "evaluated from the match", want, "a fuzzer that crashed has falsified nothing" if cn == "Err" else "the verdict follows the presence of a counterexample"), sample={"counterexample": cn, "mode": md, "is_success": got})
